@@ -293,6 +293,7 @@ func c13Dim(d *c13Sym) *gozxing.Dimension {
 }
 
 func runC13(c *Ctx) {
+	c.Rng = c.Rng.Fork() // decorrelate consecutive VERIF_SEEDs (NewRng(s) and NewRng(s+1) are the same stream shifted by one)
 	c.res.Rule = "QR: every mode x level x version boundary n = cap(v), cap(v)+1 (quick) / every length 1..cap(40)+1 (thorough), plain and with ECI/GS1 headers, " +
 		"forced versions (int/string/other hints, in and out of range, fitting and not), beyond version 40; " +
 		"Data Matrix: SymbolInfo_Lookup for ALL n in 0..1560 x 3 shapes x 31x31 (min,max) pairs from the symbol size list (exhaustive), both fail modes; " +
@@ -523,6 +524,7 @@ func runC13(c *Ctx) {
 		c.Oracle("dm-lookup", true, "dm-smallest-admissible", fmt.Sprintf("lookup * shape=%s min=%s max=%s", shName, c13DimStr(mn), c13DimStr(mx)), "")
 		c.NoteN("dm-lookup:found", nOK)
 		c.NoteN("dm-lookup:refused", nRefused)
+		c.NoteN("dm-lookup:model-sampled", len(sample))
 		c.mu.Lock()
 		c.res.Evaluations += 1561
 		c.mu.Unlock()
